@@ -1157,4 +1157,18 @@ pub struct MPMCFutSender<T> {""")]),
         self.wait.notify_all();
         rval""")]),
     V('mpmc-unirecv-sync-impl', 'C19', [], [E('src/mpmc.rs', "unsafe impl<T: Send> Send for MPMCUniReceiver<T> {}", "unsafe impl<T: Send> Sync for MPMCUniReceiver<T> {}")]),
+
+    V('free-epoch-read-early', 'C16', ['P12f'], [E(MEM, """        elemvec.push(ToFree::new(pt, num));
+        {
+            let _lock = self.mem_manager.try_lock().map(|mut inner| {
+                let epoch = self.epoch.load(Ordering::SeqCst);
+                if inner.try_freeing(epoch) {""", """        elemvec.push(ToFree::new(pt, num));
+        let epoch = self.epoch.load(Ordering::SeqCst);
+        if elemvec.len() > 20 {
+            self.start_free(&mut elemvec);
+        }
+        {
+            let _lock = self.mem_manager.try_lock().map(|mut inner| {
+                if inner.try_freeing(epoch) {""")]),
+    V('wrap-at-npot', 'C10', ['P15m'], [E('src/countedindex.rs', "        self.mask as Index + 1", "        (self.mask as Index).next_power_of_two()")]),
 ]
